@@ -183,6 +183,17 @@ def run_case(case: dict, st=None, ref_cache: Optional[dict] = None) -> Tuple[Lis
         viols.append({"key": f"result|{kind}|{name.split(':')[0]}" + ("|" + name if kind.startswith(("pseudo", "residual", "model", "frequenc")) else ""),
                       "what": f"{what} [{name}]", "case": {k: v for k, v in case.items() if k != "data"}, "detail": detail})
 
+    if case.get("pre_mask") is not None:
+        # the same analysis run just before, in this process, on the same spectrum with other points masked (same number of unmasked
+        # points, same first and last unmasked point): its result is not judged, it must only leave no trace in the run that follows
+        dp, _ = build_data(dict(case, mask=case["pre_mask"]), st, removed=False)
+        if E.get("seed") is not None:
+            np.random.seed(E["seed"])
+        try:
+            call(st, dp)
+        except Exception:
+            pass
+        name += "|after-the-same-analysis-with-another-mask"
     d, masked = build_data(case, st, removed=False)
     before = d.to_dict()
     if E.get("seed") is not None:
@@ -229,12 +240,12 @@ def run_case(case: dict, st=None, ref_cache: Optional[dict] = None) -> Tuple[Lis
                 pass
     if circuit_in is not None:
         # the input circuit must be untouched: compare with a freshly parsed one
-        fresh = st["parse_cdc"](MRQ_CDC if name.startswith("drt:mrq") else FIT_CDC)
+        fresh = st["parse_cdc"](MRQ_CDC if case["entry"].startswith("drt:mrq") else FIT_CDC)
         if snapshot_circuit(circuit_in) != snapshot_circuit(fresh):
             viol("input-circuit-modified", "the circuit passed in was modified by the analysis")
     # masked points never influence the result: compare with the physically reduced data set
     if masked:
-        key = (name, tuple(masked))
+        key = (case["entry"], tuple(masked))
         ref = None if ref_cache is None else ref_cache.get(key)
         if ref is None:
             dref, _ = build_data(case, st, removed=True)
@@ -296,6 +307,9 @@ def cases(thorough: bool) -> Dict[str, List[dict]]:
                     if heavy and not thorough and p == "tiny-negative":
                         continue
                     cs.append({"entry": name, "mask": list(m), "order": order, "payload": p})
+        if not heavy or thorough:
+            for a, b in ((("i1",), ("i2",)), (("i2",), ("i1",)), (("i1", "i2"), ("i1",)), ((), ("i2",))):
+                cs.append({"entry": name, "mask": list(a), "order": "desc", "payload": "true", "pre_mask": list(b)})
         out[name] = cs
     return out
 
@@ -308,7 +322,8 @@ def run(ctx) -> None:
                 "perform_zhit (Z, Y, and a spectrum with negative Re Y that triggers the offset shift), calculate_drt (tr-nnls 2 modes x 3 lambda "
                 "modes, lm x 2 order methods, mrq-fit, bht with a fixed RNG seed), fit_circuit (3 / 9 methods x weights, a multi-method call; "
                 "thorough: auto/auto) x every mask subset of size <= 2 over 4 probe positions (first, last, two interior) x masked-point payloads "
-                "{true value, 1e12(1+j), -1e-12 (, NaN)} x ascending/descending input. Oracles: result frequencies = unmasked frequencies, "
+                "{true value, 1e12(1+j), -1e-12 (, NaN)} x ascending/descending input; plus each (light) entry point run twice in one process with "
+                "different masks that leave the same number of points and the same end points (the second run is judged). Oracles: result frequencies = unmasked frequencies, "
                 "residuals = (Z - Z_model)/|Z|, pseudo chi-squared = sum |residual|^2, attached circuit reproduces the model impedances, input "
                 "data and input circuit untouched, and the result is bit-identical to the result for the data set with the masked points removed.")
     ctx.exhaustive = True
@@ -320,7 +335,7 @@ def run(ctx) -> None:
         # keep all cases of one (entry, mask) in one job so the reference run is shared; split big entries by mask
         groups: Dict[Tuple, List[dict]] = {}
         for c in cs:
-            groups.setdefault(tuple(c["mask"]), []).append(c)
+            groups.setdefault((tuple(c["mask"]), tuple(c["pre_mask"]) if "pre_mask" in c else None), []).append(c)
         for g in groups.values():
             jobs.append(g)
     ctx.pmap(_chunk, jobs, label="analysis runs")
